@@ -293,6 +293,9 @@ func ruleConvOnce(c *Ctx, r *R) {
 					if knownPrimitiveAt(fn, u2.val, u2.ins) {
 						continue
 					}
+					if onlyMessageOperand(u2.ins) {
+						continue // the text of an error raised in a failure branch: no result is computed from it
+					}
 					bad = fmt.Sprintf("%s at %s and then %s at %s", u1.what, c.Pos(instrPos(u1.ins)), u2.what, c.Pos(instrPos(u2.ins)))
 				}
 			}
@@ -308,6 +311,36 @@ func ruleConvOnce(c *Ctx, r *R) {
 		}
 	}
 	r.note("converted_values", nIds)
+}
+
+// onlyMessageOperand: the result of the conversion is used for nothing but an operand of a formatted message (it is
+// boxed and stored into the variadic list of a call).
+func onlyMessageOperand(ins ssa.Instruction) bool {
+	v, ok := ins.(ssa.Value)
+	if !ok || v.Referrers() == nil || len(*v.Referrers()) == 0 {
+		return false
+	}
+	for _, ref := range *v.Referrers() {
+		mi, ok := ref.(*ssa.MakeInterface)
+		if !ok || mi.Referrers() == nil || len(*mi.Referrers()) == 0 {
+			return false
+		}
+		for _, r2 := range *mi.Referrers() {
+			st, ok := r2.(*ssa.Store)
+			if !ok || st.Val != ssa.Value(mi) {
+				return false
+			}
+			ia, ok := st.Addr.(*ssa.IndexAddr)
+			if !ok {
+				return false
+			}
+			al, ok := ia.X.(*ssa.Alloc)
+			if !ok || al.Comment != "varargs" {
+				return false
+			}
+		}
+	}
+	return true
 }
 
 // convOnceReviewed: double conversions that are what the specification says, one reason each.
